@@ -1,5 +1,6 @@
 import NucleoVerif.Props.C04_Compressed
 import NucleoVerif.Lemmas.OptSafe
+import NucleoVerif.Lemmas.OptLen
 /-! # C10 (companion file) — the matrix path does not depend on the matcher's history
 
 The scratch slab is allocated once and never cleared; `fuzzy_match_optimal` rewrites only part of the score row and of
@@ -9,10 +10,10 @@ argument; by `optimalImpl_eq_optimalDP` the result does not depend on it.  (The 
 Second theorem: the index arithmetic of the matrix path.  `Model/OptImpl.lean: optimalSafe` is the conjunction of the side
 conditions under which no `u16`/`usize` subtraction of `setup`, `score_row`, `populate_matrix`, the best-cell search and
 `reconstruct_optimal_path` underflows, every slice range and index is inside its slice, and the traceback loop ends
-(running out of fuel counts as a failure); `C10_matrix_indices_in_range` proves it for every input.  (Overflow of the
-score additions is not part of it: C03_Bound.) -/
+(running out of fuel counts as a failure); `C10_matrix_indices_in_range` proves it for every input.  Third theorem: `C10_matrix_scores_fit_u16`, no `u16`
+overflow of the score additions in the matrix (prefix preference off, preset bonuses, needles the slab admits). -/
 namespace NucleoVerif.OptImpl
-open NucleoVerif NucleoVerif.Gen NucleoVerif.Gen.Opt NucleoVerif.DP
+open NucleoVerif NucleoVerif.Gen NucleoVerif.Gen.Opt NucleoVerif.DP NucleoVerif.Spec
 
 /-- **C10, the matrix path does not depend on the matcher's history**: whatever earlier calls left in the score row and
     in the back-pointer cells, the result is the same -/
@@ -69,5 +70,47 @@ theorem C10_matrix_indices_in_range (cfg : Cfg) (ext : Ext) (hrep : Rep) (h n : 
 
 /-- the conditions are not vacuous: they fail for offsets the greedy scan cannot produce -/
 example : scoreRowSafe 4 12 6 3 3 1 = false ∧ scoreRowSafe 4 12 6 1 3 1 = true := by decide
+
+/-- **no `u16` overflow in the matrix**: with prefix preference off and the presets' boundary bonuses (at most 10), every
+    cell of row `r` of the recurrence — hence, by `optimalImpl_eq_optimalDP`'s cell relation, every cell the code keeps in
+    its score row — has a score of at most `26 (r + 1) + 10`; for the needle lengths the slab admits (`MAX_NEEDLE_LEN` = 2048)
+    that leaves room for every intermediate sum of `next_m_cell` (`+ max(consecutive_bonus, bonus)`, `+ SCORE_MATCH`) below 2^16 -/
+theorem C10_matrix_scores_fit_u16 (cfg : Cfg) (ext : Ext) (hrep : Rep) (h n : List Nat) (start end_ : Nat)
+    (hpp : cfg.preferPrefix = false) (hw : cfg.white ≤ 10) (hd : cfg.delim ≤ 10) (hlen : n.length ≤ 2048)
+    (r k : Nat) (c : Cell) (hr : r < n.length)
+    (hc : (rowN (windowCols cfg ext hrep h start end_) n (prefixStart cfg start) r)[k]? = some (some c)) :
+    c.score ≤ 26 * (r + 1) + 10 ∧ c.score + 26 < 65536 := by
+  have hpb : prefixStart cfg start = 0 := by unfold prefixStart; simp [hpp]
+  rw [hpb] at hc
+  generalize hcols : windowCols cfg ext hrep h start end_ = cols at hc
+  have colsok : ColsOK cfg.white cfg.delim cfg.initial (clsOf cfg ext h) cols start := by
+    rw [← hcols]; exact windowCols_ok cfg ext hrep h start end_
+  have rowinv : RowInv cfg.white cfg.delim cfg.initial (clsOf cfg ext h) start (rowN cols n 0 r) := by
+    unfold rowN
+    exact allRows_inv cfg.white cfg.delim cfg.initial (clsOf cfg ext h) cols start colsok _ _
+      (firstRow_inv cfg.white cfg.delim cfg.initial (clsOf cfg ext h) _ cols start colsok)
+  have inv := rowinv k c hc
+  have hklen : k < cols.length := by
+    have h1 : k < (rowN cols n 0 r).length := by
+      apply Nat.lt_of_not_le
+      intro hcon
+      rw [List.getElem?_eq_none hcon] at hc; cases hc
+    rw [rowN_length] at h1; exact h1
+  have hjlt : start + k < h.length := by
+    have := windowCols_length_le cfg ext hrep h start end_
+    rw [hcols] at this
+    omega
+  have hsc := cell_score_eq_alignScore cfg ext h c (start + k) hjlt inv
+  have hpl := rowN_len cols n 0 r hr k c hc
+  have hnd : c.path.Nodup := by
+    have hpw := inv.2.2.2.2.2.2.2.2.2.2
+    exact hpw.imp (fun hab => Nat.ne_of_lt hab)
+  have hb := C03_scheme_bound cfg ext h c.path hnd
+  have hB : bonusCap cfg.white cfg.delim ≤ 10 := by unfold bonusCap; omega
+  rw [hpl, ← hsc] at hb
+  have h1 : c.score ≤ 26 * (r + 1) + 10 := by
+    have : (16 + bonusCap cfg.white cfg.delim) * (r + 1) ≤ 26 * (r + 1) := Nat.mul_le_mul_right _ (by omega)
+    omega
+  exact ⟨h1, by omega⟩
 
 end NucleoVerif.OptImpl
